@@ -1,4 +1,4 @@
-import CoapVerif.Lemmas.Build
+import CoapVerif.Lemmas.EditTrace
 /-
 C01 — wire codec round trip for every API-built message on every transport.
 
@@ -12,13 +12,16 @@ STATUS.
  * S half (P2: the property holds of the specification, for all messages, all three framings, any
    insertion order): proved in full.
  * M half (P1), proved in full: `M_encode_eq_S` (M's header + buffer = Spec.encode, every framing),
-   `view_of_built`.
- * M half, PARTIAL: `build_view_partial` covers the append path only (token first, options in
-   ascending number order, then payload; calls that do not trigger the implicit Hop-Limit).  The
-   out-of-order path through coap_insert_option is NOT proved; it is tied to the code by T2 only.
-   `refused_is_noop_partial` covers refused coap_add_token, refused append (no space) and refused
-   coap_add_data.  The full `refused_is_noop` is FALSE on the current tree: witness
-   `refused_proxy_leaves_hop_limit` (open finding hop-limit-left-by-refused-proxy).
+   `view_of_built`, and `build_view`: EVERY script of API calls (any insertion order, insert / update /
+   remove / update_token included, any capacity) run by M on a representing PDU ends on the PDU that
+   represents the abstract message reached by the specification's steps with M's return codes (through
+   C04's refinement lemmas: Lemmas/EditItems, EditPatch, EditRefine, EditApi, EditTrace).
+   `build_view_partial` (append path in closed form) is kept.
+ * `refused_is_noop` at full strength is FALSE on the current tree: witness
+   `refused_proxy_leaves_hop_limit` (open finding hop-limit-left-by-refused-proxy).  Proved instead:
+   `refused_is_noop_partial` — every refused call of every kind is a no-op outside the D13 domain
+   (Proxy-Uri / Proxy-Scheme added to a request without Hop-Limit), and `refused_changes_only_hop_limit`
+   — inside that domain a refused call changes nothing or leaves exactly Hop-Limit = 16 behind.
 -/
 namespace Coap.C01
 open Coap Coap.M
@@ -134,19 +137,90 @@ theorem build_payload (ms : Nat) (a : Msg) (d : Bytes) (hp : a.payload = []) (hd
     (hfit : ms = 0 ∨ (conc ms a).buf.length + d.length + 1 ≤ ms) :
     addData (conc ms a) d = R.ok (1, conc ms { a with payload := d }) := addData_conc ms a d hp hd hfit
 
+/-- **build_view**: for EVERY call list (token, options in any order through coap_add_option / coap_insert_option and
+its six header-rewrite cases, updates, removals, token replacements, payload; any capacity, so with refusals at any
+step) M never leaves the buffer and ends on the PDU that represents the abstract message `a` obtained from `a₀` by the
+specification's steps with exactly M's return codes (`Trace`: accepted = the abstract operation, D13's Hop-Limit only
+where allowed; refused = nothing — or the open finding, `Step.leftover`); and the decoder's view of that PDU is `a`
+whenever the caller kept the RFC length limits. -/
+theorem build_view (ms : Nat) (a₀ : Msg) (cs : List Call) (hs : Shape a₀) (hc : ∀ c ∈ cs, callNumOk c) :
+    ∃ rcs a, run (conc ms a₀) cs = R.ok (rcs, conc ms a) ∧ Trace a₀ cs rcs a ∧ Shape a ∧
+      (a.code ≠ 0 → Spec.optsOk a.code 0 a.opts = true → view (conc ms a) = some a) := by
+  obtain ⟨rcs, a, h1, h2, h3⟩ := run_refines ms a₀ cs hs hc
+  exact ⟨rcs, a, h1, h2, h3, fun hcode ho => view_conc ms a hcode h3.1 ho⟩
+
+/-- … in particular from the PDU `coap_pdu_init` returns -/
+theorem build_view_fresh (ty code mid ms : Nat) (pdu : Pdu) (cs : List Call) (hi : pduInit ty code mid ms = some pdu)
+    (hc : ∀ c ∈ cs, callNumOk c) :
+    ∃ rcs a, run pdu cs = R.ok (rcs, conc ms a) ∧ Trace ⟨ty, code, mid, [], [], []⟩ cs rcs a ∧ Shape a := by
+  have hp : pdu = conc ms ⟨ty, code, mid, [], [], []⟩ := by
+    unfold pduInit at hi
+    split at hi
+    · cases hi
+    · injection hi with hi; rw [← hi]; rfl
+  rw [hp]
+  have hs : Shape ⟨ty, code, mid, [], [], []⟩ := ⟨by simp, by simp, by simp⟩
+  obtain ⟨rcs, a, h1, h2, h3⟩ := run_refines ms _ cs hs hc
+  exact ⟨rcs, a, h1, h2, h3⟩
+
+/-- every accepted step of a `Trace` is the specification's operation: for the option calls `Spec.applyEdit`, i.e.
+stable insertion / first-match replacement / first-match removal (so `build_sorted`, `build_stable` apply to what M built) -/
+theorem accepted_step_is_spec (hop : Bool) (a : Msg) (n : Nat) (v : Bytes) :
+    callSem hop a (.addOption n v) = { a with opts := Spec.addSem hop n v a.opts } ∧
+    callSem hop a (.insertOption n v) = { a with opts := Spec.addSem hop n v a.opts } ∧
+    callSem hop a (.updateOption n v) =
+      { a with opts := if Spec.hasOpt n a.opts then Spec.replaceFirst n v a.opts else Spec.addSem hop n v a.opts } ∧
+    callSem hop a (.removeOption n) = { a with opts := Spec.removeFirst n a.opts } :=
+  ⟨rfl, rfl, rfl, rfl⟩
+
 /-- PARTIAL `refused_is_noop`: a refused coap_add_token (not first / too long / no space), a refused append (no
-space) and a refused coap_add_data (payload present / no space) return 0 and leave the PDU exactly as it was.
-FULL STATEMENT (FALSE on the current tree, see the witness below; not proved for the editors):
-  `M.call pdu c = R.ok (0, pdu') → pdu' = pdu` for every call `c`. -/
+space) and a refused coap_add_data (payload present / no space) return 0 and leave the PDU exactly as it was; and EVERY
+refused call of every kind (add_option, insert, update, remove, update_token included) leaves the PDU exactly as it was
+— outside the D13 domain `hopDomain` (Proxy-Uri / Proxy-Scheme added to a request that has no Hop-Limit).
+FULL STATEMENT (FALSE on the current tree, see the witness below):
+  `M.call pdu c = R.ok (0, pdu') → pdu' = pdu` for every call `c`.
+What a refused call does inside the excluded domain is `refused_changes_only_hop_limit`. -/
 theorem refused_is_noop_partial (ms : Nat) (a : Msg) :
     (∀ t, ((conc ms a).buf ≠ [] ∨ t.length > 65804 ∨ (ms ≠ 0 ∧ (Spec.extBytes t.length).length + t.length > ms)) →
         addToken (conc ms a) t = R.ok (0, conc ms a)) ∧
     (∀ n v, (ms ≠ 0 ∧ (conc ms a).buf.length + optEncodeSize ((n - lastNum a.opts) % 65536) v.length > ms) →
         appendOption (conc ms a) n v = R.ok (0, conc ms a)) ∧
     (∀ d, d ≠ [] → (a.payload ≠ [] ∨ (ms ≠ 0 ∧ (conc ms a).buf.length + d.length + 1 > ms)) →
-        addData (conc ms a) d = R.ok (0, conc ms a)) :=
-  ⟨fun t h => addToken_refused ms a t h, fun n v h => appendOption_refused ms a n v h,
-   fun d hd h => addData_refused ms a d hd h⟩
+        addData (conc ms a) d = R.ok (0, conc ms a)) ∧
+    (∀ c pdu', Shape a → callNumOk c → hopDomain a c = false → call (conc ms a) c = R.ok (0, pdu') → pdu' = conc ms a) := by
+  refine ⟨fun t h => addToken_refused ms a t h, fun n v h => appendOption_refused ms a n v h,
+   fun d hd h => addData_refused ms a d hd h, ?_⟩
+  intro c pdu' hs hc hdom h
+  rw [call_conc ms a c hs hc] at h
+  injection h with h
+  injection h with h1 h2
+  have hstep := absCall_step ms a c
+  rw [h1] at hstep
+  rw [← h2]
+  generalize (absCall ms a c).2 = a' at hstep
+  cases hstep with
+  | accepted rc hop hne _ => exact absurd rfl hne
+  | refused => rfl
+  | leftover hd => rw [hdom] at hd; cases hd
+
+/-- the excluded domain, exactly: a refused call changes nothing, or it is a Proxy-Uri / Proxy-Scheme on a request
+without Hop-Limit and what it leaves behind is precisely the option Hop-Limit = 16 at its sorted position (the open
+finding; every other byte of the message, `max_opt` and the payload offset are those of the representing PDU) -/
+theorem refused_changes_only_hop_limit (ms : Nat) (a : Msg) (c : Call) (pdu' : Pdu) (hs : Shape a) (hc : callNumOk c)
+    (h : call (conc ms a) c = R.ok (0, pdu')) :
+    pdu' = conc ms a ∨
+    (hopDomain a c = true ∧ pdu' = conc ms { a with opts := Spec.insertStable 16 [16] a.opts }) := by
+  rw [call_conc ms a c hs hc] at h
+  injection h with h
+  injection h with h1 h2
+  have hstep := absCall_step ms a c
+  rw [h1] at hstep
+  rw [← h2]
+  generalize (absCall ms a c).2 = a' at hstep
+  cases hstep with
+  | accepted rc hop hne _ => exact absurd rfl hne
+  | refused => exact Or.inl rfl
+  | leftover hd => exact Or.inr ⟨hd, rfl⟩
 
 /-- WITNESS of the open finding hop-limit-left-by-refused-proxy (replay: build udp 12 0 1 1 O35:*20*1): on a GET with
 room for 12 bytes, adding a 20-byte Proxy-Uri returns 0 — and the PDU now holds Hop-Limit = 16 -/
@@ -155,6 +229,21 @@ theorem refused_proxy_leaves_hop_limit :
       R.ok (0, conc 12 ⟨0, 1, 1, [], [(16, [16])], []⟩) := by decide
 
 /-! ### non-vacuity -/
+
+/-- out-of-order build: an illegal repetition of Size1 refused, 300, then 3 and 290 below it (coap_add_option →
+coap_insert_option; the header of the following option is rewritten each time), payload, an insertion behind the
+payload's back, a removal -/
+example : run (conc 0 ⟨0, 1, 7, [], [], []⟩)
+    [.addToken [1], .addOption 60 [5], .addOption 60 [6], .addOption 300 [1], .addOption 3 [0x68], .addOption 290 [0x62],
+     .addData [9], .insertOption 11 [0x61], .removeOption 290] =
+    R.ok ([1, 3, 0, 3, 2, 3, 1, 2, 1], conc 0 ⟨0, 1, 7, [1], [(3, [0x68]), (11, [0x61]), (60, [5]), (300, [1])], [9]⟩) := by decide
+example : ∃ rcs a, run (conc 0 ⟨0, 1, 7, [], [], []⟩) [.addToken [1], .addOption 300 [1], .addOption 3 [0x68]] =
+    R.ok (rcs, conc 0 a) ∧ Trace ⟨0, 1, 7, [], [], []⟩ [.addToken [1], .addOption 300 [1], .addOption 3 [0x68]] rcs a ∧
+    Shape a ∧ (a.code ≠ 0 → Spec.optsOk a.code 0 a.opts = true → view (conc 0 a) = some a) :=
+  build_view 0 ⟨0, 1, 7, [], [], []⟩ _ ⟨by decide, by decide, by decide⟩ (by decide)
+/-- a refused call outside the D13 domain (no room for Uri-Path in 3 bytes) -/
+example : call (conc 3 ⟨0, 1, 7, [1], [], []⟩) (.insertOption 11 [0x61, 0x62]) = R.ok (0, conc 3 ⟨0, 1, 7, [1], [], []⟩) ∧
+    hopDomain ⟨0, 1, 7, [1], [], []⟩ (.insertOption 11 [0x61, 0x62]) = false := by decide
 
 example : Spec.WF .udp ⟨0, 1, 0x1234, [1, 2], [(11, [0x61]), (11, [0x62]), (12, [])], [0x68, 0x69]⟩ := by decide
 example : Spec.encode .udp ⟨0, 1, 0x1234, [1, 2], [(11, [0x61]), (11, [0x62]), (12, [])], [0x68, 0x69]⟩ =
